@@ -11,6 +11,7 @@ pub fn case_json(prop: &str, verif_seed: u64, idx: u64) -> Value {
         Engine::Sql | Engine::Crash => serde_json::to_value(run::gen_sql_case(prop, verif_seed, idx)).unwrap(),
         Engine::Wal => serde_json::to_value(crate::walsim::gen_case(verif_seed, idx)).unwrap(),
         Engine::Wire => serde_json::to_value(crate::wiresim::gen_case(verif_seed, idx)).unwrap(),
+        Engine::Thread => serde_json::to_value(crate::threadsim::gen_case(verif_seed, idx)).unwrap(),
         _ => json!({}),
     }
 }
@@ -21,6 +22,7 @@ pub fn sample_json(prop: &str, verif_seed: u64, idx: u64) -> Value {
         Engine::Sql | Engine::Crash => run::sample_of(&run::gen_sql_case(prop, verif_seed, idx)),
         Engine::Wal => crate::walsim::sample_of(&crate::walsim::gen_case(verif_seed, idx)),
         Engine::Wire => crate::wiresim::sample_of(&crate::wiresim::gen_case(verif_seed, idx)),
+        Engine::Thread => crate::threadsim::sample_of(&crate::threadsim::gen_case(verif_seed, idx)),
         _ => json!({}),
     }
 }
@@ -77,6 +79,7 @@ pub fn run_one(prop: &str, verif_seed: u64, idx: u64) -> RunResult {
         }
         Engine::Wal => crate::walsim::run_case(&crate::walsim::gen_case(verif_seed, idx), idx),
         Engine::Wire => crate::wiresim::run_case(&crate::wiresim::gen_case(verif_seed, idx), idx),
+        Engine::Thread => crate::threadsim::run_case(&crate::threadsim::gen_case(verif_seed, idx), idx),
         _ => unimplemented!(),
     }
 }
@@ -112,6 +115,9 @@ pub fn replay_raw(path: &str, mut out: std::fs::File) -> i32 {
     } else if engine.starts_with("E2") {
         let case: SqlReplay = serde_json::from_value(v).expect("crash replay");
         crate::crashsim::run_case(&case, 0)
+    } else if engine.starts_with("E4") {
+        let case: crate::threadsim::ThreadReplay = serde_json::from_value(v).expect("thread replay");
+        crate::threadsim::run_case(&case, 0)
     } else if engine.starts_with("E5") {
         crate::wiresim::limit_memory(3 << 30);
         let case: crate::wiresim::WireReplay = serde_json::from_value(v).expect("wire replay");
